@@ -843,8 +843,12 @@ pub fn model_step(m: &mut Model, op: &Op, res: &Res, ticks: (u32, u32), atime: b
                 }
                 Resolve::Missing(parent, name) => {
                     if !nerrs.is_empty() {
-                        if srcn.is_some() {
+                        if let Some(n) = srcn {
                             must.extend(nerrs.iter().copied());
+                            // (the destination also lies inside the directory that is being moved)
+                            if m.is_dir(n) && m.is_ancestor(n, parent) {
+                                must.push(ErrKind::InvalidInput);
+                            }
                         } else {
                             may.extend(nerrs.iter().copied());
                         }
